@@ -1407,6 +1407,74 @@ def prewarm():
 # =============================================================================================
 # the repository's own files
 
+def own_file_views():
+    """{file|options: [per record: {'struct': digest, 'stereo': [...] | None} | None]} for the repository's own test files."""
+    out = {}
+    for name in FILES:
+        path = os.path.join(env.REPO, 'test', name)
+        if not os.path.exists(path):
+            continue
+        fmt = 'sdf' if name.endswith('.sdf') else 'rdf' if name.endswith('.rdf') else 'mrv'
+        with open(path, 'rb') as f:
+            data = f.read()
+        for ct in (False, True):
+            seq = seq_outcomes(fmt, data, ct)
+            recs = []
+            for st, v in seq:
+                if st != 'ok':
+                    recs.append(None)
+                    continue
+                mols = [v] if v.get('kind') == 'mol' else v['r'] + v['p'] + v['a']
+                recs.append({'struct': core.digest([[m['atoms'], m['bonds']] for m in mols]),
+                             'stereo': [None if m.get('stereo') is None or isinstance(m.get('stereo'), str) else
+                                        sorted(json.loads(json.dumps(m['stereo'])), key=repr) for m in mols]})
+            out[f'{name}|calc_ct={ct}'] = recs
+    return out
+
+
+def golden_phase(probes):
+    """What the own files denote is data: every record must still read as the same atoms and bonds, and every stereo label
+    recorded in golden/own_files.json must still be there with the same canonical sign (additional labels are not an error)."""
+    path = os.path.join(env.VERIF, 'golden', 'own_files.json')
+    if not os.path.exists(path):
+        return []
+    with open(path) as f:
+        golden = json.load(f)
+    found = []
+    now = own_file_views()
+    for key, recs in golden.items():
+        cur = now.get(key)
+        name = key.split('|')[0]
+        if cur is None:
+            continue
+        if len(cur) != len(recs):
+            found.append((name, 'roundtrip-mismatch:count', f'own file {key}: {len(cur)} records, {len(recs)} recorded'))
+            continue
+        for i, (g, c) in enumerate(zip(recs, cur)):
+            if g is None:
+                continue
+            probes['golden_records_checked'] += 1
+            if c is None:
+                found.append((name, 'exception-escaped:own-file-record', f'own file {key} record {i} is no longer readable'))
+                break
+            if g['struct'] != c['struct']:
+                found.append((name, 'roundtrip-mismatch:atoms', f'own file {key} record {i}: atoms / bonds differ from the recorded reading'))
+                break
+            bad = None
+            for gs, cs in zip(g['stereo'], c['stereo']):
+                if gs is None or cs is None:
+                    continue
+                have = [json.dumps(x) for x in cs]
+                miss = [x for x in gs if json.dumps(x) not in have]
+                if miss:
+                    bad = miss
+                    break
+            if bad:
+                found.append((name, 'roundtrip-mismatch:stereo', f'own file {key} record {i}: recorded stereo labels missing or changed: {bad[:3]}'))
+                break
+    return found
+
+
 def own_files_phase(probes):
     """Valid records written by other programs are read rather than crashed on; random access = sequential."""
     found = []
@@ -1443,6 +1511,9 @@ def own_files_phase(probes):
             except Exception as e:
                 found.append({'property': PROP, 'fmt': fmt, 'own_file': name, 'records': [], 'reads': [{'indexed': True}],
                               'violation': {'class': f'exception-escaped:{type(e).__name__}', 'detail': f'own file {name} indexed: {e!r}'}})
+    for name, cls, detail in golden_phase(probes):
+        found.append({'property': PROP, 'fmt': 'sdf' if name.endswith('.sdf') else 'rdf' if name.endswith('.rdf') else 'mrv',
+                      'own_file': name, 'records': [], 'reads': [{'golden': True}], 'violation': {'class': cls, 'detail': detail}})
     return found
 
 
